@@ -1,4 +1,5 @@
 import Iec.Lemmas.Srv104
+import Iec.Model.Cli104
 /-
 C03 — CS104 wire format and send/receive sequence numbering are exact.
 
@@ -14,8 +15,8 @@ Theorems on the server model `Iec.Srv104` (every frame the model writes is produ
 N(R) = V(R), V(S) advances by exactly one mod 32768 iff the write succeeded - so the n-th
 I-frame of a connection carries (s0 + n - 1) mod 32768 from any start s0, the wrap being
 the `% 32768`), `sendS_spec`, `u_frames`.  V(R) advances exactly when both sequence checks
-pass: C05 `delivery` (same code path).  The client role is checked by the correspondence
-run only (no client model theorems yet): level note says so.
+pass: C05 `delivery` (same code path).  Client role (`Iec.Cli104`, tied by its own differential):
+`client_sendI_spec`, `client_sendS_spec`, `client_u_frames` - the same laws for cs104_connection.c.
 -/
 namespace Iec.Props.C03
 open Iec.Srv104 Iec.KWindow
@@ -74,5 +75,56 @@ theorem sendS_spec (s : Slave) (i : Nat) (h1 : (s.conn i).sock.writeFail = false
 theorem u_frames : WellFormed STARTDT_CON ∧ WellFormed STOPDT_CON ∧ WellFormed TESTFR_CON ∧ WellFormed TESTFR_ACT ∧
     STARTDT_CON.getD 2 0 = 0x0b ∧ STOPDT_CON.getD 2 0 = 0x23 ∧ TESTFR_CON.getD 2 0 = 0x83 ∧ TESTFR_ACT.getD 2 0 = 0x43 := by
   unfold WellFormed; decide
+
+/-! ### client role (cs104_connection.c) -/
+section Client
+open Iec.Cli104
+
+/-- the client's socket exists and accepts writes -/
+def CliWritable (c : Cli) : Prop := (c.phase = 2 ∨ c.phase = 3) ∧ c.sock.writeFail = false ∧ c.sock.peerClosed = false
+
+theorem cli_write_ok (c : Cli) (h : CliWritable c) (b : List Nat) : Iec.Cli104.write c b = Iec.Cli104.emit c (.tx b) := by
+  obtain ⟨hp, h1, h2⟩ := h
+  unfold Iec.Cli104.write
+  rcases hp with hp | hp <;> simp [hp, h1, h2]
+
+/-- **client, I-format.** `CS104_Connection_sendASDU` on a running connection with room in the window writes exactly
+one well-formed I-format APDU carrying N(S) = V(S) and N(R) = V(R); V(S) advances by one modulo 32768 (the
+32767 -> 0 wrap is this `%`); with a full window nothing is written and the call reports failure. -/
+theorem client_sendI_spec (c : Cli) (asdu : List Nat) (hl : asdu.length ≤ 249) (hw : CliWritable c) (hr : c.running = true)
+    (hvs : c.vs < 32768) :
+    let frame := [0x68, asdu.length + 4, seqLo c.vs, seqHi c.vs, seqLo c.vr, seqHi c.vr] ++ asdu
+    WellFormed frame ∧ frame.getD 2 0 % 2 = 0 ∧
+    (isFull (c.maxSent.getD c.p.k) c.win = false →
+      (sendAsdu c asdu).2 = true ∧ (sendAsdu c asdu).1.log = c.log ++ [.tx frame] ∧
+      (sendAsdu c asdu).1.vs = (c.vs + 1) % 32768 ∧ (sendAsdu c asdu).1.vr = c.vr) ∧
+    (isFull (c.maxSent.getD c.p.k) c.win = true → sendAsdu c asdu = (c, false)) := by
+  have hc := seq_codec c.vs hvs
+  refine ⟨⟨by simp, by simp, by simp, by simp, by simp; omega⟩, by simpa using hc.2.2.1, ?_, ?_⟩
+  · intro hf
+    have hm : (asdu.length + 4) % 256 = asdu.length + 4 := by omega
+    unfold sendAsdu
+    simp only [hr, if_true, hf, Bool.not_false, hm]
+    rw [cli_write_ok c hw]
+    simp [Iec.Cli104.emit]
+  · intro hf
+    unfold sendAsdu
+    simp [hr, hf]
+
+/-- **client, S-format.** The acknowledgement the client writes carries N(R) = V(R) and clears the count of
+unacknowledged received I-frames. -/
+theorem client_sendS_spec (c : Cli) (hw : CliWritable c) :
+    (confirmOutstanding c).log = c.log ++ [.tx [0x68, 4, 1, 0, seqLo c.vr, seqHi c.vr]] ∧
+    (confirmOutstanding c).unconf = 0 ∧ (confirmOutstanding c).vr = c.vr := by
+  unfold confirmOutstanding
+  rw [cli_write_ok _ (by exact hw)]
+  simp [Iec.Cli104.emit]
+
+/-- the U-format frames the client writes -/
+theorem client_u_frames : WellFormed Iec.Cli104.STARTDT_ACT ∧ WellFormed Iec.Cli104.STOPDT_ACT ∧
+    Iec.Cli104.STARTDT_ACT.getD 2 0 = 0x07 ∧ Iec.Cli104.STOPDT_ACT.getD 2 0 = 0x13 := by
+  unfold WellFormed; decide
+
+end Client
 
 end Iec.Props.C03
